@@ -1,5 +1,5 @@
 #!/bin/sh
-# sensitivity.sh [C15|C16|C20|neutral] (parts can run side by side: SENS_SLOT=<name> SENS_OUT=<file>) — for every property-breaking change (mutants/c*.patch, seeded/*/patch.diff),
+# sensitivity.sh [C15|C16|C20|neutral] (parts can run side by side: SENS_SLOT=<name> SENS_OUT=<file> SENS_MATCH=<regex on the change's name>) — for every property-breaking change (mutants/c*.patch, seeded/*/patch.diff),
 # one at a time: run the quick check of the property it breaks against a tree with the change and require
 # exit 1 with a VIOLATION line and a replay file that reproduces on the changed tree and is quiet on the clean
 # one; for every neutral change (mutants/neutral_*.patch, neutral/*/patch.diff) require exit 0 from all three
@@ -18,14 +18,17 @@ OUT="${SENS_OUT:-$ROOT/sensitivity_results.txt}"
 export VERIF_SRC="/tmp/iso-$SLOT-src"
 rm -rf "$VERIF_SRC"; mkdir -p "$VERIF_SRC"
 rsync -a --exclude target --exclude .git --exclude replays --exclude evidence --exclude 'target.build.log*' "$ROOT/" "$VERIF_SRC/"
+MATCH="${SENS_MATCH:-.}"
 run_breaking() { # name patch property
     if [ -n "$ONLY" ] && [ "$ONLY" != "$3" ]; then return; fi
+    echo "$1" | grep -qE "$MATCH" || return
     line=$("$ROOT/scripts/try_isolated.sh" "$SLOT" "$2" "$3" breaking 2>&1 | grep -aE '^(CAUGHT|MISSED)' | head -1 | cut -c1-400)
     verdict=${line%% *}; rest=${line#* }
     echo "${verdict:-MISSED} $1 $rest" | tee -a "$OUT"
 }
 run_neutral() { # name patch
     if [ -n "$ONLY" ] && [ "$ONLY" != neutral ]; then return; fi
+    echo "$1" | grep -qE "$MATCH" || return
     line=$("$ROOT/scripts/try_isolated.sh" "$SLOT" "$2" C15 neutral 2>&1 | grep -aE '^(QUIET|ALARM)' | head -1)
     verdict=${line%% *}; rest=${line#* }
     echo "${verdict:-ALARM} $1 (neutral change) $rest" | tee -a "$OUT"
@@ -50,7 +53,7 @@ for d in "$ROOT"/neutral/*/; do
     run_neutral "neutral/$(basename "$d")" "$d/patch.diff"
 done
 # the unchanged tree
-if [ -z "$ONLY" ] || [ "$ONLY" = neutral ]; then
+if { [ -z "$ONLY" ] || [ "$ONLY" = neutral ]; } && echo "clean tree" | grep -qE "$MATCH"; then
     line=$("$ROOT/scripts/try_isolated.sh" "$SLOT" - C15 neutral 2>&1 | grep -aE '^(QUIET|ALARM)' | head -1)
     echo "clean tree: $line" | tee -a "$OUT"
 fi
